@@ -17,6 +17,8 @@ def fault_key(it):
             'source' if '/src/' in path or path.startswith('src/') else \
             'info' if '/info/' in path else 'payload' if '/files/' in path else 'dirs'
     phase = 'copy' if it['scen'].startswith('fallback') and it.get('after_rename') else 'plain'
+    if it['faults'] and 'env' in it['faults'][0]:
+        return '%s:%s:%s:%s' % (phase, it['faults'][0]['env'], op, where)
     return '%s:%s:%s' % (phase, op, where)
 
 
@@ -28,7 +30,9 @@ def run(chk):
                 'are invariants and Termination holds under weak fairness (a retry loop under a persistent error is a '
                 'lasso TLC finds: mutant "retryall"). (2) the REAL trash-put runs with errno e injected at operation k, '
                 'for every k of the uninterrupted run, e in %s, one-shot and sticky (every later operation of the same '
-                'kind in the same directory fails too), per scenario; thorough adds sampled pairs of faults; an operation '
+                'kind in the same directory fails too), per scenario; plus the environment fault "the directory holding the '
+                'entry cannot be modified" (rename, unlink and rmdir of the entry all fail with EACCES / EPERM / EROFS for '
+                'the whole run); thorough adds sampled pairs of faults; an operation '
                 'budget and a wall-clock limit turn non-termination into an observation; the final projected state is '
                 'judged by TLC (FsTrace): fully trashed in one trash directory or untouched with a failure exit and no '
                 'stray info / orphan payload. distinct = (scenario, k, errno, mode)' % errnos)
@@ -45,6 +49,7 @@ def run(chk):
     ])
     rnd = random.Random('c17|%s' % chk.seed)
     jobs = []
+    jobs_env = []
     rename_at = {}
     for scen in opdrivers.SINGLE_SCENARIOS:
         n, ops, ex = opdrivers.baseline_ops(scen, chk.seed)
@@ -55,6 +60,8 @@ def run(chk):
                     if sticky and e == 'EEXIST':
                         continue
                     jobs.append((scen, [{'at': k, 'errno': e, 'sticky': sticky}], chk.seed))
+        for e in ('EACCES', 'EPERM', 'EROFS'):
+            jobs_env.append((scen, [{'env': 'readonly-parent', 'errno': e}], chk.seed))
         if not quick:
             for _ in range(400):
                 k1, k2 = sorted(rnd.sample(range(1, n + 1), 2))
@@ -63,13 +70,15 @@ def run(chk):
     if quick and len(jobs) > 4200:
         rnd.shuffle(jobs)
         jobs = jobs[:4200]
+    jobs += jobs_env
     out = tt.pmap(opdrivers.run_fault, jobs)
     items = []
     for o in out:
         chk.traces += 1
         f = o['faults'][0]
         chk.count('faults', 1, key='%s|%s' % (o['scen'], o['faults']), nontrivial=bool(o['injected']))
-        o['after_rename'] = bool(o['faults']) and o['faults'][0]['at'] > rename_at[o['scen']]
+        o['after_rename'] = bool(o['faults']) and (o['faults'][0].get('at', 0) > rename_at[o['scen']] or (
+            'env' in o['faults'][0] and o['scen'].startswith('fallback') and len(o['injected']) > 0 and o['injected'][0][0] != 'rename'))
         if not o['terminated']:
             chk.violation('faults:%s:nontermination' % fault_key(o),
                           'trash-put did not terminate within the operation budget: scenario %s, faults %s, injected %s' % (
